@@ -50,7 +50,13 @@ def imag_cfg(sc):
 
 def case_imag(ctx):
     rng = ctx.rng
-    em = evolve.hermitian_model(ctx, allow_complex=bool(rng.random() < 0.25))
+    # every 12th case is laid out for the class "real state, complex Hamiltonian" (rare by chance, required by plan())
+    force_rc = bool(ctx.idx % 12 == 0)
+    em = evolve.hermitian_model(ctx, allow_complex=bool(force_rc or rng.random() < 0.25))
+    for _ in range(10):
+        if not force_rc or em.mpo.is_complex:
+            break
+        em = evolve.hermitian_model(ctx, allow_complex=True)
     qntot = None
     for _ in range(10):
         q = states.pick_sector(rng, em.gm)
@@ -60,7 +66,7 @@ def case_imag(ctx):
     if qntot is None:
         ctx.refuse("no sector with >= 3 states")
         return
-    full = evolve.generic_full_state(ctx, em, qntot, complex_amplitudes=bool(rng.random() < 0.4))
+    full = evolve.generic_full_state(ctx, em, qntot, complex_amplitudes=bool((not force_rc) and rng.random() < 0.4))
     if full is None:
         ctx.refuse("sector-aware random constructor refused")
         return
